@@ -968,7 +968,7 @@ func (s *syncer) storageStage() *outcome {
 // ---------------------------------------------------------------------------
 // Stage 3: blocks up to the sync point, then the jump.
 
-var blockFaults = []string{"timestamp", "nonce", "prev-hash", "next-consensus", "prev-state-root", "drop-tx", "swap-tx", "tx-script", "tx-nonce", "no-txs", "other-chain", "future", "past", "state-root-flag"}
+var blockFaults = []string{"timestamp", "nonce", "prev-hash", "next-consensus", "prev-state-root", "drop-tx", "swap-tx", "tx-script", "tx-nonce", "no-txs", "other-chain", "future", "past", "state-root-flag", "witness-garbage", "witness-emptied", "witness-signature-dropped", "witness-verification-script"}
 
 func (s *syncer) badBlock(next uint32, kind string) *block.Block {
 	b := s.src.block(next)
@@ -1026,6 +1026,28 @@ func (s *syncer) badBlock(next uint32, kind string) *block.Block {
 			return nil
 		}
 		return s.src.block(1 + uint32(s.r.Intn(int(next-1))))
+	case "witness-garbage":
+		// same hash (the witness is not hashed): the already known, verified
+		// header is the reference the block's witness is checked against
+		if s.r.Intn(2) == 0 {
+			b.Script.InvocationScript = s.r.Bytes(1 + s.r.Intn(len(b.Script.InvocationScript)+8))
+		} else {
+			b.Script.InvocationScript = bytes.Clone(b.Script.InvocationScript)
+			b.Script.InvocationScript[s.r.Intn(len(b.Script.InvocationScript))] ^= 1 << uint(s.r.Intn(8))
+		}
+	case "witness-emptied":
+		b.Script.InvocationScript = []byte{}
+	case "witness-signature-dropped":
+		// a multisignature invocation script is a sequence of PUSHDATA1 64 <signature>
+		if len(b.Script.InvocationScript) < 2*66 {
+			return nil
+		}
+		k := s.r.Intn(len(b.Script.InvocationScript) / 66)
+		inv := bytes.Clone(b.Script.InvocationScript)
+		b.Script.InvocationScript = append(inv[:k*66:k*66], inv[(k+1)*66:]...)
+	case "witness-verification-script":
+		b.Script.VerificationScript = bytes.Clone(b.Script.VerificationScript)
+		b.Script.VerificationScript[s.r.Intn(len(b.Script.VerificationScript))] ^= 1 << uint(s.r.Intn(8))
 	case "state-root-flag":
 		b2, err := vchain.DecodeBlock(vchain.EncodeBlock(b), false)
 		if err != nil {
